@@ -5,6 +5,8 @@ CLAIMED = {
  "C15": ("DESIGN.md#c15", "Lean theorems over the regenerated helpers/tables (every integer year) + Rust twins proved equal for years >= 1; correspondence model<->code on both backends; oracle = CPython calendar",
          "Lean 4 proof over regenerated source (Gen.*) + hand model tied by differential run"),
 }
+CLAIMED["C02"] = ("DESIGN.md#c02", "Lean theorems for every well-formed zone table (classification unique/repeated/skipped, resolution rules, raise_iff) over the model of Timezone.convert/DateTime.create; correspondence on every gap/overlap of every tzdata zone x 10 entry points x both backends; oracle classifies wall values from the tz table",
+         "Lean 4 proof over zone-table model + differential correspondence run")
 NA = {}
 def main():
     props = [json.loads(l) for l in open(os.path.join(ROOT, "properties.jsonl"))]
